@@ -68,6 +68,9 @@ func zzQOp(q *RequestQueue, op int) func() {
 // re-acquires a lock it holds
 func ZZ_C10_RequestQueue() {
 	n := zzvf.Choose(3)
+	// pre-state with room (capacity 8) or FULL (capacity = content) with the failure / overflow
+	// callbacks set: a refused put and an evicting forced put run the callbacks inside the operation
+	full := zzvf.Choose(2) == 1
 	mk := func() *RequestQueue {
 		q := NewRequestQueue(8)
 		for i := 0; i < n; i++ {
@@ -75,6 +78,11 @@ func ZZ_C10_RequestQueue() {
 		}
 		q.Put(int64(100))
 		q.Put(int64(101)) // two elements at least: a blocking Get in either operation returns
+		if full {
+			q.SetCapacity(n + 2)
+			q.Failed = func(interface{}) {}
+			q.Overflowed = func(interface{}) {}
+		}
 		return q
 	}
 	a, b := zzvf.Choose(len(zzQOps10)), zzvf.Choose(len(zzQOps10))
@@ -147,6 +155,9 @@ func zzDQOp(q *RequestDoubleQueue, op string) func() {
 // queue: two elements at least, so that a blocking Get in either operation returns
 func zzDQPre(n int) *RequestDoubleQueue {
 	q := NewRequestDoubleQueue(4, 4)
+	// callbacks set: a refused put / an evicting forced put runs them inside the operation
+	q.failed1, q.failed2 = func(interface{}) {}, func(interface{}) {}
+	q.overflowed1, q.overflowed2 = func(interface{}) {}, func(interface{}) {}
 	for i := 0; i < n; i++ {
 		q.Put1(int64(i))
 		q.Put2(int64(50 + i))
